@@ -80,6 +80,12 @@ struct World {
     cmd: Vec<smpsc::Sender<Cmd>>,
     rt: tokio::runtime::Runtime,
     topic_no: u64,
+    /// a topic that always has a live entry: `stream()` on it needs nothing but the `senders` read lock
+    probe_topic: Topic,
+    _probe_handle: Option<GossipHandle>,
+    /// memo: schedule prefix -> "the `senders` lock can be taken for reading"
+    lock_memo: std::collections::HashMap<String, bool>,
+    lock_probes: u64,
 }
 
 impl World {
@@ -131,7 +137,18 @@ impl World {
                 }
             });
         }
-        World { ctl, gossip, probe, pool, cmd, rt, topic_no: 0 }
+        let probe_topic: Topic = [0xEEu8; 32].into();
+        let h = rt.block_on(gossip.stream(probe_topic)).expect("probe topic handle");
+        World { ctl, gossip, probe, pool, cmd, rt, topic_no: 0, probe_topic, _probe_handle: Some(h), lock_memo: Default::default(), lock_probes: 0 }
+    }
+
+    /// Is the `senders` lock free for a reader right now?  Asked of the real object (a `stream()` on a topic with
+    /// a live entry takes the read lock and returns), never assumed: which lock `stream()` holds at which
+    /// schedule point is exactly what a change of the code may alter.
+    fn senders_readable(&self) -> bool {
+        let g = self.gossip.clone();
+        let t = self.probe_topic;
+        self.rt.block_on(async move { tokio::time::timeout(Duration::from_millis(25), g.stream(t)).await.map(|r| r.is_ok()).unwrap_or(false) })
     }
 
     fn fresh_topic(&mut self) -> Topic {
@@ -234,7 +251,7 @@ enum TState {
 
 /// One schedule executed on the real code.
 struct Exec<'a> {
-    w: &'a World,
+    w: &'a mut World,
     topic: Topic,
     nthreads: usize,
     state: Vec<TState>,
@@ -295,14 +312,34 @@ impl<'a> Exec<'a> {
     }
 
     /// Threads that can take a step now (each has exactly one possible next atomic step).
-    fn enabled(&self) -> Vec<usize> {
-        // the `senders` write lock is held from the second look-up until the insert
-        let wlock = self.state.iter().any(|s| matches!(s, TState::WaitLeft | TState::BeforeSubscribe | TState::BeforeInsert));
+    fn enabled(&mut self) -> Vec<usize> {
+        // A thread parked inside the slow path of stream() *may* hold the `senders` lock; whether another
+        // thread's look-up can proceed is asked of the real lock (memoised per schedule prefix).
+        let maybe_holder = self.state.iter().any(|s| matches!(s, TState::WaitLeft | TState::BeforeSubscribe | TState::BeforeInsert));
+        let wants_lock = |t: usize, me: &Exec| match me.state[t] {
+            TState::Idle => me.ip[t] < me.prog[t].len() && me.prog[t][me.ip[t]] == Op::S,
+            TState::Missed => true,
+            _ => false,
+        };
+        let lock_free = if maybe_holder && (0..self.nthreads).any(|t| wants_lock(t, self)) {
+            let key = self.actions.join(" ");
+            match self.w.lock_memo.get(&key) {
+                Some(b) => *b,
+                None => {
+                    let b = self.w.senders_readable();
+                    self.w.lock_memo.insert(key, b);
+                    self.w.lock_probes += 1;
+                    b
+                }
+            }
+        } else {
+            true
+        };
         let dying = self.state.iter().any(|s| *s == TState::BeforeUnsub);
         (0..self.nthreads)
             .filter(|t| match self.state[*t] {
-                TState::Idle => self.ip[*t] < self.prog[*t].len() && !(wlock && self.prog[*t][self.ip[*t]] == Op::S),
-                TState::Missed => !wlock,
+                TState::Idle => self.ip[*t] < self.prog[*t].len() && (lock_free || !wants_lock(*t, self)),
+                TState::Missed => lock_free,
                 TState::WaitLeft => !dying,
                 _ => true,
             })
@@ -805,6 +842,45 @@ fn replay_actions(w: &mut World, req: &str) -> Case {
     c
 }
 
+/// Lock-agnostic fallback: no parking at all. Two free-running threads call stream() for a fresh topic at the
+/// same moment (both slow paths overlap unless the code serialises them), then one handle is dropped, then the other.
+fn race_streams(w: &mut World, rounds: usize) -> Case {
+    w.set_parking(false, false);
+    let mut fails: Vec<(String, String)> = vec![];
+    let mut bad = String::new();
+    for r in 0..rounds {
+        let topic = w.fresh_topic();
+        {
+            let mut st = w.ctl.m.lock().unwrap();
+            st.done[0] = None;
+            st.done[1] = None;
+        }
+        let _ = w.cmd[0].send(Cmd::Stream(topic));
+        let _ = w.cmd[1].send(Cmd::Stream(topic));
+        let (a, b) = (w.wait(0, None), w.wait(1, None));
+        let (sa, sb) = match (a, b) {
+            (Ok(Pos::Done(Done::Handle(x))), Ok(Pos::Done(Done::Handle(y)))) => (x, y),
+            other => {
+                fails.push(("hang".into(), format!("round {r}: two concurrent stream() calls: {other:?}")));
+                break;
+            }
+        };
+        let ev1 = w.events(topic);
+        let _ = w.start(0, Cmd::Drop(sa));
+        let ev2 = w.events(topic);
+        let _ = w.start(1, Cmd::Drop(sb));
+        let ev3 = w.events(topic);
+        let ok = ev1 == vec![true] && ev2 == vec![true] && ev3 == vec![true, false];
+        if !ok && bad.is_empty() {
+            bad = format!("round {r}: messages after both stream() calls returned: {}, after dropping one handle: {}, after dropping both: {}", fmt_events(&ev1), fmt_events(&ev2), fmt_events(&ev3));
+            let tag = if ev1.iter().filter(|e| **e).count() > 1 { "subscribe-twice" } else if ev2.last() == Some(&false) { "dead-handle" } else { "unsubscribe-count" };
+            fails.push((tag.into(), format!("two free-running threads calling stream() for one topic at the same moment (no schedule points), {bad}")));
+        }
+    }
+    w.set_parking(true, false);
+    Case { req: "race streams".into(), ans: if bad.is_empty() && fails.is_empty() { "ok".into() } else { "bad".into() }, nt: true, fails, steps: rounds }
+}
+
 /// Stress without schedule points: bare guards hammered by 8 threads.
 fn hammer_guards(w: &mut World, rng: &mut Rng, rounds: usize) -> Case {
     w.set_parking(false, false);
@@ -883,7 +959,13 @@ fn main() {
         let text = std::fs::read_to_string(args.replay.as_ref().expect("replay file")).unwrap();
         let v: hc::serde_json::Value = hc::serde_json::from_str(&text).unwrap();
         let req = v["request"].as_str().unwrap().to_string();
-        let c = if req.starts_with("hammer") { hammer_guards(&mut w, &mut Rng::new(1), 2000) } else { replay_actions(&mut w, &req) };
+        let c = if req.starts_with("hammer") {
+            hammer_guards(&mut w, &mut Rng::new(1), 2000)
+        } else if req.starts_with("race") {
+            race_streams(&mut w, 500)
+        } else {
+            replay_actions(&mut w, &req)
+        };
         emit(&mut out, c, "replay");
         out.finish("replay", false);
         std::process::exit(0);
@@ -936,6 +1018,10 @@ fn main() {
         emit(&mut out, c, "random-3-threads");
     }
     // 3. stress without hooks
+    if !HUNG.load(Ordering::SeqCst) {
+        let c = race_streams(&mut w, hammer * 10);
+        emit(&mut out, c, "race-streams");
+    }
     for _ in 0..hammer {
         if HUNG.load(Ordering::SeqCst) {
             break;
@@ -944,8 +1030,10 @@ fn main() {
         emit(&mut out, c, "hammer-guards");
     }
     out.extra.insert("exhaustive_2_thread_complete".into(), exhaustive_complete.into());
+    out.extra.insert("senders_lock_probes".into(), w.lock_probes.into());
+    out.extra.insert("senders_lock_found_held".into(), (w.lock_memo.values().filter(|b| !**b).count() as u64).into());
     out.finish(
-        "one case = one schedule of atomic steps (lookup / subscribe / insert / clone / decrement / send-Unsubscribe) realised on the real Gossip::stream, GossipHandle::clone and TopicDropGuard::drop with real OS threads parked at the schedule points; exhaustive: every interleaving of every pair of thread programs over {stream, clone, drop} up to the length bound, for 4 initial handle distributions; random: 3 threads; hammer: 8 threads on bare guards without schedule points. non-trivial = a counter drops to zero while another thread is inside stream(), or a stream() lookup happens while an Unsubscribe is still to be sent",
+        "one case = one schedule of atomic steps (lookup / subscribe / insert / clone / decrement / send-Unsubscribe) realised on the real Gossip::stream, GossipHandle::clone and TopicDropGuard::drop with real OS threads parked at the schedule points; exhaustive: every interleaving of every pair of thread programs over {stream, clone, drop} up to the length bound, for 4 initial handle distributions; random: 3 threads; race: two free-running threads calling stream() for one topic simultaneously, no schedule points; hammer: 8 threads on bare guards without schedule points. Whether a look-up may proceed while another thread is parked inside stream() is asked of the real senders lock, not assumed. non-trivial = a counter drops to zero while another thread is inside stream(), or a stream() lookup happens while an Unsubscribe is still to be sent",
         false,
     );
     std::process::exit(0);
